@@ -2,8 +2,8 @@
    Property theorems only. Model: model/TmTree.v (sparse index), model/CIndex.v (per-chunk hull and index),
    model/Selector.v (write path, range read, histories). The theorems are about `impl_variant`, the variant
    of the model the correspondence check compares the implementation with (= fixed_variant: the repairs
-   C02-lower-bound, C02-zero-unset and C02-open-lower-bound are in /repo); the variants with a flag
-   switched off describe the code before the corresponding repair. *)
+   C02-lower-bound, C02-zero-unset, C02-open-lower-bound and C02-write-after-index-loss are in /repo); the
+   variants with a flag switched off describe the code before the corresponding repair. *)
 From LR Require Import lib.Base model.TmTree model.TmTreeML model.CIndex model.Selector.
 From LR Require Import gen.Consts.
 From LR Require Import proofs.TmTreeP proofs.TmTreeMLP proofs.CIndexP proofs.SelectorP proofs.SelectorInvP proofs.SelectorRunP.
@@ -30,7 +30,7 @@ Print Assumptions C02_sound.
 Theorem C02_window_complete : forall v ci t1 t2 k d,
   fix_lb v = true -> find_chunk ci (k_id k) = Some k -> chunk_inv k d -> len d <= max_uint32 ->
   forall i, 0 <= i < len d -> t1 <= dnth d i <= t2 ->
-  let st := fst (update_poss v ci t1 t2 (k_id k) (k_min k) (k_max k) (len d)) in
+  let st := fst (update_poss v ci t1 t2 (k_id k) (k_rmin k) (k_rmax k) (len d)) in
   snd (check_pos_or_advance st 0) = true /\ fst (check_pos_or_advance st 0) <= i <= s_max st.
 Proof. exact window_complete. Qed.
 Print Assumptions C02_window_complete.
@@ -56,21 +56,24 @@ Proof. exact complete_of_inv_strict. Qed.
 Print Assumptions C02_old_lower_bound_complete_of_strict_invariant.
 
 (* ---- what IS proved of the whole system, for the code as it is: for every history whose timestamps are
-   non-decreasing in write order, whose batches follow the journal's discipline (a batch continues the last
-   chunk and/or opens new ones), in which no write follows an index loss before a sync or read, and for
-   every range (either bound may be omitted): RANGE = filter of the full scan.  Batch sizes, chunk sizes,
-   equal-timestamp runs, zeros, negative values, int64 extremes, failed TryLocks, sparse skips, big gaps,
-   rebuilds, syncs, index losses, clean restarts (index saved and loaded) and describes (forced rebuild
-   requests) are all arbitrary. ---- *)
+   non-decreasing in write order and whose batches follow the journal's discipline (a batch continues the last
+   chunk and/or opens new ones with larger ids; fewer than 2^32 records), and for every range (either bound may
+   be omitted): RANGE = filter of the full scan.  Batch sizes, chunk sizes, equal-timestamp runs, zeros,
+   negative values, int64 extremes, failed TryLocks, sparse skips, big gaps, rebuilds, syncs, index losses AT
+   ANY POINT (also directly before a write: the info such a write creates is marked partial and reported with
+   an unlimited time range until the rebuild has scanned the chunk), clean restarts (index saved and loaded,
+   the mark included) and describes (forced rebuild requests) are all arbitrary.
+   What is left of "partial": hist_sorted (the recorded finding c02-non-monotone, needed: see
+   C02_nonmonotone_refuted) and the two assumptions about the journal, hist_disciplined and hist_small. ---- *)
 Definition C02_complete_partial_statement (v : variant) : Prop :=
   forall hist o1 o2, Forall op_ok hist -> op_ok (HRead o1 o2) ->
-    hist_sorted hist -> hist_disciplined hist -> hist_small hist -> no_write_after_drop hist ->
+    hist_sorted hist -> hist_disciplined hist -> hist_small hist ->
     complete_at v (run v hist) o1 o2.
 Theorem C02_complete_partial : C02_complete_partial_statement impl_variant.
 Proof. exact complete_impl. Qed.
 Print Assumptions C02_complete_partial.
 
-(* ---- what the three repairs bought: for EVERY variant that lacks one of them the same statement, with all
+(* ---- what the four repairs bought: for EVERY variant that lacks one of them the same statement, with all
    its hypotheses, is false. The witnesses are the former known findings; the harness corpus
    (harness/c02/e2e.go corpus()) replays each of them on the implementation first on every run and now
    expects the complete answer ---- *)
@@ -96,21 +99,28 @@ Theorem C02_complete_without_open_lower_repair_refuted : forall v, fix_open v = 
 Proof. exact refuted_open_lower. Qed.
 Print Assumptions C02_complete_without_open_lower_repair_refuted.
 
-(* ---- the two hypotheses of C02_complete_partial that are about the data and the schedule are needed by
-   the code as it is: each has a witness that satisfies all the others (recorded findings) ---- *)
+(* (f) before C02-write-after-index-loss: index lost, then a write before any sync: the info that write created had the
+       hull of the written records only (300 x 100, index lost, 10 x 200: RANGE ["100":"150"] was empty until the
+       rebuilder had served the chunk) *)
+Theorem C02_complete_without_partial_hull_repair_refuted : forall v, fix_partial v = false -> ~ C02_complete_partial_statement v.
+Proof. exact refuted_drop_write. Qed.
+Print Assumptions C02_complete_without_partial_hull_repair_refuted.
+
+(* (f') the same with a clean restart inside that window: the rebuild request and the corrupted flag were not saved,
+       the next write gave the chunk an index of its own records, the loss was permanent (witness: ... restart, a
+       write, SyncChunks, a read, a rebuilder run - and RANGE ["100":"150"] is still empty) *)
+Theorem C02_restart_in_window_without_partial_hull_repair_refuted : forall v, fix_partial v = false -> ~ C02_complete_partial_statement v.
+Proof. exact refuted_drop_write_restart. Qed.
+Print Assumptions C02_restart_in_window_without_partial_hull_repair_refuted.
+
+(* ---- the hypothesis of C02_complete_partial that is about the data is needed by the code as it is: a witness
+   that satisfies all the others (recorded finding) ---- *)
 (* (c) timestamps that are not monotone in stored order (250 x 100, 500, 250 x 200: RANGE ["400":"600"] is empty) *)
 Theorem C02_nonmonotone_refuted :
-  exists hist o1 o2, Forall op_ok hist /\ op_ok (HRead o1 o2) /\ hist_disciplined hist /\ hist_small hist /\ no_write_after_drop hist /\
+  exists hist o1 o2, Forall op_ok hist /\ op_ok (HRead o1 o2) /\ hist_disciplined hist /\ hist_small hist /\
     ~ complete_at impl_variant (run impl_variant hist) o1 o2.
 Proof. exact refuted_nonmonotone. Qed.
 Print Assumptions C02_nonmonotone_refuted.
-
-(* (f) monotone timestamps: index lost, then a write before any sync, read before the rebuilder has run *)
-Theorem C02_write_after_index_loss_refuted :
-  exists hist o1 o2, Forall op_ok hist /\ op_ok (HRead o1 o2) /\ hist_sorted hist /\ hist_disciplined hist /\ hist_small hist /\
-    ~ complete_at impl_variant (run impl_variant hist) o1 o2.
-Proof. exact refuted_drop_write. Qed.
-Print Assumptions C02_write_after_index_loss_refuted.
 
 (* hence the statement without hypotheses is (still) false of the code as it is *)
 Theorem C02_complete_refuted : ~ C02_complete_statement impl_variant.
@@ -156,16 +166,16 @@ Proof. exact lazy_wit_nonvac. Qed.
    all of its records that contains every position whose timestamp is in the range. ---- *)
 Theorem C02_continued_selector_complete : forall t1 t2 hist0 hs,
   Forall op_ok (hist0 ++ concat hs) -> hist_sorted (hist0 ++ concat hs) -> hist_disciplined (hist0 ++ concat hs) ->
-  hist_small (hist0 ++ concat hs) -> no_write_after_drop hist0 -> ends_synced hist0 -> Forall no_drop (concat hs) ->
+  hist_small (hist0 ++ concat hs) -> ends_synced hist0 -> Forall no_drop (concat hs) ->
   session_complete impl_variant t1 t2 (run impl_variant hist0) [] hs.
 Proof. exact continued_selector_complete. Qed.
 Print Assumptions C02_continued_selector_complete.
 
-(* non-vacuity: two chunks, an index loss and a sync before the selector is created; between its reads a describe
+(* non-vacuity: two chunks, an index loss, a write and a sync before the selector is created; between its reads a describe
    (forced rebuild requests), a rebuilder run, a restart and a read by someone else; then a batch and a rebuilder run *)
 Example C02_continued_selector_complete_nonvacuous :
   Forall op_ok (sess_hist0 ++ concat sess_hs) /\ hist_sorted (sess_hist0 ++ concat sess_hs) /\ hist_disciplined (sess_hist0 ++ concat sess_hs) /\
-  hist_small (sess_hist0 ++ concat sess_hs) /\ no_write_after_drop sess_hist0 /\ ends_synced sess_hist0 /\ Forall no_drop (concat sess_hs).
+  hist_small (sess_hist0 ++ concat sess_hs) /\ ends_synced sess_hist0 /\ Forall no_drop (concat sess_hs).
 Proof. exact sess_nonvac. Qed.
 
 (* ---- the multi-level block tree (model/TmTreeML.v, compared with real ckindex trees of up to 3 levels on every
@@ -189,9 +199,11 @@ Print Assumptions C02_tree_add_in_order.
 (* non-vacuity: a history satisfying all hypotheses of C02_complete_partial: two chunks, a batch that starts
    with timestamp 0, equal-timestamp runs across sparse-index points, a failed TryLock, a batch split over a
    chunk roll-over, a clean restart, an index loss followed by a sync, a read, a describe (forced rebuild requests) and a
-   rebuild, a second restart, then a further indexed write *)
-Example C02_nonvacuous : hist_sorted nonvac_hist /\ hist_disciplined nonvac_hist /\ no_write_after_drop nonvac_hist /\
-  length (fst (range_read impl_variant (run impl_variant nonvac_hist) (Some 0) (Some 20))) = 1006%nat.
+   rebuild, a second restart, a further indexed write; then an index loss DIRECTLY followed by a write (so the
+   hypothesis the theorem used to have does not hold), a read, a clean restart inside the window, another write and a
+   rebuilder run *)
+Example C02_nonvacuous : hist_sorted nonvac_hist /\ hist_disciplined nonvac_hist /\ ~ no_write_after_drop nonvac_hist /\
+  length (fst (range_read impl_variant (run impl_variant nonvac_hist) (Some 0) (Some 20))) = 1016%nat.
 Proof. exact nonvac_ok. Qed.
 
 (* the constants the model repeats are the constants the Go sources have now (coq/gen/Consts.v is regenerated
